@@ -40,6 +40,8 @@ enum St {
     WaitMapRead,
     /// inside mmap-append's resize, about to take the map's write lock
     WaitMapWrite,
+    /// about to remap the event map while a reader holds references into it (see `ref_hazard`)
+    WaitRefHazard,
     Done,
 }
 
@@ -64,6 +66,15 @@ struct CtlState {
     /// a modelled dead-lock was found: let the threads run out without lock modelling
     draining: bool,
     map_deadlock: Option<String>,
+    /// the operation a thread is executing is a pure reader (query or lookup returning events)
+    reader_op: Vec<bool>,
+    /// events read from the map by the thread's current operation (references it holds)
+    refs_in_flight: Vec<u32>,
+    /// a store reached the remap of the event map while a reader held references into it
+    ref_hazard: Option<String>,
+    /// the open finding is listed: keep the writer back until the readers have finished (the
+    /// real code would hand the reader unmapped memory when the kernel moves the mapping)
+    avoid_ref_hazard: bool,
 }
 
 pub struct Ctl {
@@ -90,6 +101,10 @@ impl Ctl {
                 map_write_waiting: None,
                 draining: false,
                 map_deadlock: None,
+                reader_op: vec![false; n],
+                refs_in_flight: vec![0; n],
+                ref_hazard: None,
+                avoid_ref_hazard: false,
             }),
             cv: Condvar::new(),
             resizes: std::sync::atomic::AtomicU64::new(0),
@@ -165,6 +180,24 @@ fn map_hook(name: &'static str) {
             g.map_readers[t] = false;
         }
         "mmap:resize_before_write" => {
+            let wait = {
+                let mut g = ctl.m.lock().unwrap();
+                let holders: Vec<usize> = (0..g.status.len()).filter(|u| *u != t && g.reader_op[*u] && g.refs_in_flight[*u] > 0 && g.status[*u] != St::Done).collect();
+                if !holders.is_empty() {
+                    if g.ref_hazard.is_none() && !g.draining {
+                        g.ref_hazard = Some(format!(
+                            "thread {t} (store_event growing event.map) reaches the remap while thread(s) {:?} are inside a query or lookup holding references to events they have already read from the map: the remap may move the mapping, after which those references (and the answer built from them) point into unmapped memory",
+                            holders
+                        ));
+                    }
+                    g.avoid_ref_hazard
+                } else {
+                    false
+                }
+            };
+            if wait {
+                ctl.yield_at(t, St::WaitRefHazard);
+            }
             {
                 let mut g = ctl.m.lock().unwrap();
                 g.map_write_waiting = Some(t);
@@ -184,10 +217,32 @@ fn map_hook(name: &'static str) {
 
 struct ConcHooks {
     ctl: Arc<Ctl>,
+    /// also yield at the `y:` points (every engine access of the index layer, every read of the
+    /// event map): a third of the runs (cfg obs_level 1 of a concurrent trace)
+    fine: bool,
 }
 
 impl pocket_db::verif::Hooks for ConcHooks {
     fn point(&self, name: &'static str) {
+        if name == "y:es:read:checked" {
+            if let Some(t) = TID.with(|c| c.get()) {
+                // (what a thread reads while it holds the writer lock cannot be pulled away by
+                // another store's growth)
+                let mut g = self.ctl.m.lock().unwrap();
+                if g.writer != Some(t) {
+                    g.refs_in_flight[t] += 1;
+                }
+            }
+        }
+        if name == "vanish:after_query1" || name == "vanish:after_query2" {
+            // vanish has copied the ids out of its query's answer and lets go of the references
+            if let Some(t) = TID.with(|c| c.get()) {
+                self.ctl.m.lock().unwrap().refs_in_flight[t] = 0;
+            }
+        }
+        if name.starts_with("y:") && !self.fine {
+            return;
+        }
         if let Some(t) = TID.with(|c| c.get()) {
             if name == "es:after_resize" {
                 let _ = self.ctl.resizes.fetch_add(1, std::sync::atomic::Ordering::SeqCst);
@@ -1052,8 +1107,10 @@ pub fn generate(rs: u64, focus: &str) -> Trace {
     // the schedule is generated while running (it depends on which threads are runnable);
     // the generator fixes the policy and its PRNG stream
     let sched_seed = g.rng.next();
+    // (in a concurrent trace obs_level 1 means: the `y:` points are yield points too)
+    let fine = (sched_seed >> 17) % 3 == 0;
     Trace {
-        cfg: Cfg { prop: "C14".into(), mode: Mode::Conc, seed: sched_seed, blocker: false, extra_tables: 0, obs_level: 0, drain: false },
+        cfg: Cfg { prop: "C14".into(), mode: Mode::Conc, seed: sched_seed, blocker: false, extra_tables: 0, obs_level: fine as u8, drain: false },
         ops,
         threads,
         schedule: vec![],
@@ -1203,7 +1260,13 @@ pub fn run_conc_full(trace: &Trace, scratch: PathBuf, verbose: bool, known_open:
     // ---- the concurrent phase
     let n = trace.threads.len();
     let ctl = Arc::new(Ctl::new(n));
-    pocket_db::verif::install(Some(Arc::new(ConcHooks { ctl: ctl.clone() })));
+    let fine = trace.cfg.obs_level == 1;
+    if fine {
+        stats.inc("conc/fine_grained_yields");
+    }
+    const REF_HAZARD_SIG: &str = "reader-references-dangle-after-concurrent-remap";
+    ctl.m.lock().unwrap().avoid_ref_hazard = known_open.contains(REF_HAZARD_SIG) && std::env::var("VERIF_ENTER_REF_HAZARD").is_err();
+    pocket_db::verif::install(Some(Arc::new(ConcHooks { ctl: ctl.clone(), fine })));
     if !NO_MAPLOCK_MODEL.load(std::sync::atomic::Ordering::Relaxed) {
         *MAP_CTL.lock().unwrap() = Some(ctl.clone());
         mmap_append::verif_set_hook(Some(map_hook));
@@ -1218,7 +1281,8 @@ pub fn run_conc_full(trace: &Trace, scratch: PathBuf, verbose: bool, known_open:
             let mut prio: Vec<u32> = (0..n as u32).map(|i| 100 + i).collect();
             r.shuffle(&mut prio);
             let d = 1 + r.usize(3);
-            let changes: Vec<u64> = (0..d).map(|_| r.range(1, 60)).collect();
+            let horizon = if trace.cfg.obs_level == 1 { 240 } else { 60 };
+            let changes: Vec<u64> = (0..d).map(|_| r.range(1, horizon)).collect();
             Policy::Pct(r, prio, changes)
         }
     };
@@ -1251,6 +1315,8 @@ pub fn run_conc_full(trace: &Trace, scratch: PathBuf, verbose: bool, known_open:
                     {
                         let mut g = ctl.m.lock().unwrap();
                         g.cur_op[t] = i;
+                        g.reader_op[t] = matches!(op, Op::Query(_) | Op::Get(_) | Op::Holder(_) | Op::GetOff(_) | Op::Vanish(_));
+                        g.refs_in_flight[t] = 0;
                     }
                     ctl.yield_at(t, St::Parked("op_start"));
                     let invoke = ctl.step();
@@ -1284,6 +1350,7 @@ pub fn run_conc_full(trace: &Trace, scratch: PathBuf, verbose: bool, known_open:
                         vec![]
                     };
                     let out = exec_op(store, op, enc, base_offsets);
+                    ctl.m.lock().unwrap().refs_in_flight[t] = 0;
                     drop(readers);
                     ctl.release_writer_if_held(t);
                     if let (Op::Store(e), Outcome::Store(StoreOutcome::Ok(off))) = (op, &out) {
@@ -1330,11 +1397,27 @@ pub fn run_conc_full(trace: &Trace, scratch: PathBuf, verbose: bool, known_open:
                         St::Parked(_) => !g.draining || !g.map_readers.iter().any(|r| *r) || g.map_readers[*t],
                         St::WaitWriter => g.writer.is_none() && (!g.draining || !g.map_readers.iter().any(|r| *r)),
                         St::WaitMapRead => g.draining || g.map_write_waiting.is_none(),
-                        St::WaitMapWrite => (0..n).all(|u| u == *t || !g.map_readers[u]),
+                        St::WaitMapWrite => (0..n).all(|u| u == *t || !g.map_readers[u]) && (!g.avoid_ref_hazard || (0..n).all(|u| u == *t || !(g.reader_op[u] && g.refs_in_flight[u] > 0 && g.status[u] != St::Done))),
+                        St::WaitRefHazard => (0..n).all(|u| u == *t || !(g.reader_op[u] && g.refs_in_flight[u] > 0 && g.status[u] != St::Done)),
                         _ => false,
                     })
                     .collect()
             };
+            // a store queued for the map's write lock while a reader that is not inside Deref has
+            // come to hold references meanwhile: the same hazard as at the moment of queueing
+            if g.ref_hazard.is_none() && !g.draining {
+                for t in 0..n {
+                    if g.status[t] == St::WaitMapWrite && (0..n).all(|u| u == t || !g.map_readers[u]) {
+                        let holders: Vec<usize> = (0..n).filter(|u| *u != t && g.reader_op[*u] && g.refs_in_flight[*u] > 0 && g.status[*u] != St::Done).collect();
+                        if !holders.is_empty() {
+                            g.ref_hazard = Some(format!(
+                                "thread {t} (store_event growing event.map) is about to remap while thread(s) {:?} are inside a query or lookup holding references to events they have already read from the map: the remap may move the mapping, after which those references (and the answer built from them) point into unmapped memory",
+                                holders
+                            ));
+                        }
+                    }
+                }
+            }
             let mut runnable = compute(&g);
             if runnable.is_empty() && g.status.iter().any(|s| matches!(s, St::WaitMapRead | St::WaitMapWrite)) && !g.draining {
                 // modelled dead-lock: a reader inside Deref holds the read lock and wants it again
@@ -1382,6 +1465,7 @@ pub fn run_conc_full(trace: &Trace, scratch: PathBuf, verbose: bool, known_open:
                 St::WaitWriter => "write_txn".to_string(),
                 St::WaitMapRead => "mmap:deref_second_read".to_string(),
                 St::WaitMapWrite => "mmap:resize_write_lock".to_string(),
+                St::WaitRefHazard => "mmap:resize_after_readers_let_go".to_string(),
                 _ => "?".to_string(),
             };
             if g.status[pick] == St::WaitWriter {
@@ -1397,6 +1481,9 @@ pub fn run_conc_full(trace: &Trace, scratch: PathBuf, verbose: bool, known_open:
             }
             last = Some(pick);
             let step = g.step;
+            if std::env::var("VERIF_TRACE_STEPS").is_ok() {
+                eprintln!("step {step}: thread {pick} released from {from} (refs in flight {:?}, statuses {:?})", g.refs_in_flight, g.status);
+            }
             g.events.push((step, pick, from));
             schedule.push(pick as u8);
             g.current = Some(pick);
@@ -1467,6 +1554,14 @@ pub fn run_conc_full(trace: &Trace, scratch: PathBuf, verbose: bool, known_open:
     let recs: Vec<OpRecord> = records.lock().unwrap().clone();
     let g = ctl.m.lock().unwrap();
     let map_deadlock = g.map_deadlock.clone();
+    if let Some(what) = g.ref_hazard.clone() {
+        stats.inc("fault/remap_reached_while_a_reader_holds_references");
+        if g.avoid_ref_hazard {
+            // the writer was kept back until the readers had finished: the run goes on and is
+            // judged as usual; the open finding is reported
+            known_out.push(crate::exec::Known { props: &["C14"], sig: REF_HAZARD_SIG, detail: what });
+        }
+    }
     stats.add("conc/steps", g.step);
     stats.add("conc/writer_grants", g.grants.len() as u64);
     for (_, _, from) in &g.events {
